@@ -321,6 +321,19 @@ def argapp(n: int) -> bool:
             and int.from_bytes(h.command_code, "big") == code and m.get_length() == len(m.dump()))
 
 
+def _limit_enums(cls, window):
+    """quick tier: at most one Enumerated argument per window (each one multiplies the path count by its number of values)"""
+    out, seen = [], False
+    for name in window:
+        acls = _table(cls, name)
+        if acls is not None and G.type_of(acls) == "Enumerated":
+            if seen:
+                continue
+            seen = True
+        out.append(name)
+    return out
+
+
 def queries(tier, seed):
     t = 300 if tier == "quick" else 900          # (the widest windows need ~120 s on an idle machine: headroom for a loaded one)
     qs = [Q("native/sweep", "sweep", engine="py", cto=120, what="all classes: reference-table pairing, None rejection, round trip")]
@@ -332,7 +345,7 @@ def queries(tier, seed):
         wins, other = _windows(cls, 3 if tier == "quick" else 5)
         if tier == "quick":
             # one table window (rotating with the seed) + one pass-through window per class
-            w = wins[(seed + ki) % len(wins)]
+            w = _limit_enums(cls, wins[(seed + ki) % len(wins)])
             qs.append(_mk(key, w, 1 + (ki % 4), 2 if ki % 2 == 0 else 0, ki % 5 == 0, t, "w" + str((seed + ki) % len(wins))))
             if other and (ki + seed) % 3 == 0:
                 o = other[:3]
